@@ -82,7 +82,7 @@ def readChannelChunkAt (file : Bytes) (s : Segment) (kind : ReaderKind) (d : Lis
     (chunkIndex : Nat) : F ChanChunk := do
   match kind with
   | .daqmx =>
-    let c ← readDaqmxChunk file s d
+    let c ← readDaqmxChunk file s d chunkIndex
     pure (RawChunk.get c p)
   | _ =>
     let cur ← fTell
